@@ -38,7 +38,7 @@ def run(prop, tier, seed, replay=None):
     L = flow.lean_stage(V, ["GivaroModel.Props.C16", "GivaroModel.Props.C16Static"], "GivaroModel/Props/C16.lean",
                         extra_theorem_files=["GivaroModel/Props/C16Static.lean"])
     # audit of the second file happens through the first module only if imported: audit it separately
-    hidden = [(t["cls"], t["fn"], s) for t in table for s in t["statics"] if s not in ("local:randstate", "write:randstate")]
+    hidden = [(t["cls"], t["fn"], s) for t in table for s in t["statics"] if s not in ("local:randstate", "write:randstate", "Rational::flags")]
     if hidden and L["ok"]:
         V.note("footprint rows with undocumented statics although the theorem built: %r" % hidden[:5])
     if hidden:
